@@ -110,6 +110,11 @@ def run(ctx: Ctx):
                         raise AnalysisError(f"{P_VALIDATORS}:{node.lineno}: unsupported comparison on `{pval}`")
             elif kind in ("isinstance", "format"):
                 pass
+            elif isinstance(node, ast.Call) and isinstance(node.func, ast.Name) and node.func.id == "type" and len(node.args) == 1 \
+                    and isinstance(node.args[0], ast.Name) and node.args[0].id == vname_here:
+                # `type(value) is int`: a test of the exact class; like isinstance it does not look at the magnitude (the
+                # int-subclass representative below decides what it does to IntEnum members)
+                pass
             else:
                 # the side condition that lets one representative per cell decide ALL ints does not hold: the cells below
                 # (every constant the function mentions +-1, powers of two up to 2^63, 10^30) are still evaluated -- a wrong
@@ -160,6 +165,20 @@ def run(ctx: Ctx):
                         msg = " ".join(str(a) for a in got[2])
                         ctx.check("SomeClass" in msg and "some_attr" in msg, "error-names-class-and-attribute", cell,
                                   f"error message {msg!r} does not name class and attribute", P_VALIDATORS, fn.lineno)
+        # ---- an int that is an instance of a subclass of int (an IntEnum member such as ErrorCodes.InvalidParams, which the
+        # package itself passes as ResponseError.code): it is an int in range, so it is accepted
+        class _IntSub(int):
+            pass
+        for v in (_IntSub(5), _IntSub(hi)):
+            for av in attr_variants:
+                try:
+                    got = ("return", it.call(fn, [inst, av, v]))
+                except Raised as e:
+                    got = ("raise", e.exc_name)
+                ctx.check(got == ("return", True), "accept-in-range",
+                          f"{vname}:value=int-subclass({int(v) if v != hi else 'max'}):attr={'obj' if isinstance(av, Record) else 'str'}",
+                          f"{vname}(<instance of an int subclass, value {int(v)}>) should return True, got {got}: integer enumeration "
+                          "members are ints in range", P_VALIDATORS, fn.lineno)
         # ---- non-int arguments: True or ValueError, never another exception
         for label, v in (("float", 1.5), ("float-int", 3.0), ("str", "12"), ("none", None), ("list", [1]),
                          ("bool-true", True), ("bool-false", False), ("nan", float("nan"))):
